@@ -428,6 +428,14 @@ func (c *Channel) PutMessageDeferred(msg *Message, timeout time.Duration) {
 
 // TouchMessage resets the timeout for an in-flight message
 func (c *Channel) TouchMessage(clientID int64, id MessageID, clientMsgTimeout time.Duration) error {
+	// hold off Close() while the message is out of the in-flight map,
+	// otherwise its flush misses the message and it is lost
+	c.exitMutex.RLock()
+	defer c.exitMutex.RUnlock()
+	if c.Exiting() {
+		return errors.New("exiting")
+	}
+
 	msg, err := c.popInFlightMessage(clientID, id)
 	if err != nil {
 		return err
@@ -476,6 +484,14 @@ func (c *Channel) FinishMessage(clientID int64, id MessageID) error {
 //
 //	and requeue a message (aka "deferred requeue")
 func (c *Channel) RequeueMessage(clientID int64, id MessageID, timeout time.Duration) error {
+	// hold off Close() from before the message leaves the in-flight map
+	// until it is queued again, otherwise its flush misses the message
+	c.exitMutex.RLock()
+	defer c.exitMutex.RUnlock()
+	if c.Exiting() {
+		return errors.New("exiting")
+	}
+
 	// remove from inflight first
 	msg, err := c.popInFlightMessage(clientID, id)
 	if err != nil {
@@ -488,15 +504,7 @@ func (c *Channel) RequeueMessage(clientID int64, id MessageID, timeout time.Dura
 	verif.Yield("req.beforePut", clientID)
 
 	if timeout == 0 {
-		c.exitMutex.RLock()
-		if c.Exiting() {
-			verif.Ev("ReqExiting", "c", vc(c), "id", vid(msg.ID), "k", clientID)
-			c.exitMutex.RUnlock()
-			return errors.New("exiting")
-		}
-		err := c.put(msg)
-		c.exitMutex.RUnlock()
-		return err
+		return c.put(msg)
 	}
 
 	// deferred requeue
